@@ -1047,7 +1047,12 @@ class S15(object):
         self.run.state('conv', f, t, self.src, got == want, r1.err, r2.err, self.size_bucket())
         if got != want:
             i = _first_diff(got or b'', want or b'')
-            self.v('convert-differs:%s->%s' % (f, t),
+            sig = 'convert-differs:%s->%s' % (f, t)
+            if self.src in ('lines', 'raw') and any(_data_tail_lead(x) for x in self.lines.values()):
+                # the known relinking quirk (token lead byte at the end of DATA text): the Session re-links on LOAD,
+                # the converter does not. Same cause, same class.
+                sig = 'image-differs:data-line-ends-in-token-lead-byte:%s' % t
+            self.v(sig,
                    '--convert=%s of a %s file saved by a Session differs from LOAD+SAVE in a Session (LOAD %r, SAVE %r): '
                    'lengths %s/%s, first difference at %d\nconverter %s\nsession   %s' % (
                        t, f, r1.errs, r2.errs, got and len(got), want and len(want), i,
